@@ -80,7 +80,11 @@ let lop_of s = match String.split_on_char ',' s with
   | ["A"; a; b; d] -> LAdd (dec a, dec b, opt_of d)
   | ["D"; a; b; d] -> LDel (dec a, dec b, opt_of d)
   | _ -> failwith ("lop " ^ s)
-let lops_of s = if s = "-" then [] else List.map lop_of (String.split_on_char '|' s)
+(* an op string may also hold has_link QUESTIONS asked in the middle of the history ("H,a,b,d"): they are not part of the
+   history, their answers go into the ops= result string at their position *)
+let is_mid_query s = String.length s > 1 && s.[0] = 'H' && s.[1] = ','
+let op_items s = if s = "-" then [] else String.split_on_char '|' s
+let lops_of s = List.map lop_of (List.filter (fun x -> not (is_mid_query x)) (op_items s))
 let lq_of s = match String.split_on_char ',' s with
   | ["H"; a; b; d] -> QHas (dec a, dec b, opt_of d)
   | ["R"; n; d] -> QRoles (dec n, opt_of d)
@@ -96,9 +100,9 @@ let parse_ans q s = match q with
 
 let run_rm maxd ops qs =
   let maxd = nat_of_int (int_of_string maxd) in
-  let ops = lops_of ops in
-  let m, res = List.fold_left (fun (m, acc) o ->
-      let (m', ok) = lstep m o in (m', b01 ok :: acc)) ([], []) ops in
+  let m, res = List.fold_left (fun (m, acc) it ->
+      if is_mid_query it then (m, show_ans (answer maxd m (lq_of it)) :: acc)
+      else let (m', ok) = lstep m (lop_of it) in (m', b01 ok :: acc)) ([], []) (op_items ops) in
   let res = String.concat "" (List.rev res) in
   let ans = List.map (fun q -> show_ans (answer maxd m (lq_of q))) (String.split_on_char '|' qs) in
   Printf.sprintf "ops=%s q=%s" (if res = "" then "-" else res) (String.concat "|" ans)
@@ -109,8 +113,20 @@ let pred_rm maxd ops qs impl =
   let qs = List.map lq_of (String.split_on_char '|' qs) in
   let m = kv impl in
   let ans = String.split_on_char '|' (List.assoc "q" m) in
+  (* questions asked in the middle of the history are judged against the history SO FAR *)
+  let items = op_items ops in
+  let opres = (try List.assoc "ops" m with Not_found -> "-") in
+  let mid_ok =
+    if String.length opres <> List.length items then not (List.exists is_mid_query items)
+    else begin
+      let ok = ref true and pre = ref [] in
+      List.iteri (fun i it ->
+          if is_mid_query it then
+            (if not (c03_pred maxd (List.rev !pre) (lq_of it) (ABool (opres.[i] = '1'))) then ok := false)
+          else pre := lop_of it :: !pre) items;
+      !ok end in
   if List.length ans <> List.length qs then false
-  else List.for_all2 (fun q a -> c03_pred maxd h q (parse_ans q a)) qs ans
+  else mid_ok && List.for_all2 (fun q a -> c03_pred maxd h q (parse_ans q a)) qs ans
 
 (* ---------- engine: role manager with matching functions (C03, extended) ---------- *)
 let mfid_of = function "-" -> None | "km" -> Some FKeyMatch | "km2" -> Some FKeyMatch2 | "km3" -> Some FKeyMatch3
